@@ -15,7 +15,8 @@
 //!       Direct verdict on the resource helpers (get_or_create_resources / add_xobject / add_graphics_state), evaluated
 //!       on the document the update denotes (new objects over the previous view) with the nearest-ancestor rule:
 //!       the call changes no object outside the page and the page's own resources (so a page that does not share
-//!       them keeps its effective resources), and after save + reload the page's effective resources hold the new
+//!       them keeps its effective resources), the page keeps every entry of its effective resources, own or INHERITED
+//!       (C11-inc-resources-shadow), and after save + reload the page's effective resources hold the new
 //!       name, every page shows what the update denoted.
 //!   (incraw HDR xBYTES LAYOUT (steps ...))
 //!       the same on top of a hand-assembled file.
@@ -275,6 +276,66 @@ fn has_resource(v: &View, page: ObjectId, cat: &[u8], name: &[u8], x: ObjectId) 
     effective_resources(v, page).0.split(';').any(|row| row == want)
 }
 
+/// does `opt_clone_object_to_new_document(id)` keep what `id` names in this update?  The copy is what the id leads to INSIDE
+/// the previous documents; when the object there is a bare reference object whose target the update has redefined, the
+/// copy is not what the id names now (a quirk of the copy; the verdict on kept resources does not speak about such calls)
+fn clone_faithful(inc: &IncrementalDocument, v: &View, id: ObjectId) -> bool {
+    if inc.new_document.objects.contains_key(&id) {
+        return true;
+    }
+    match inc.get_prev_documents().objects.get(&id) {
+        Some(o @ Object::Reference(_)) => match (inc.get_prev_documents().get_object(id), vderef(v, o, &mut vec![])) {
+            (Ok(a), Some(b)) => same_obj(a, b),
+            (Ok(_), None) => false,
+            (Err(_), _) => true, // the copy fails: nothing is written
+        },
+        _ => true,
+    }
+}
+
+/// "/Font /F1" for the row key "x466f6e74/x4631"
+fn pretty_key(key: &str) -> String {
+    key.split('/')
+        .filter(|p| !p.is_empty())
+        .map(|p| {
+            let hex = p.trim_start_matches('x');
+            let bytes: Vec<u8> = (0..hex.len() / 2).filter_map(|i| u8::from_str_radix(&hex[2 * i..2 * i + 2], 16).ok()).collect();
+            format!("/{}", String::from_utf8_lossy(&bytes))
+        })
+        .collect::<Vec<_>>()
+        .join(" ")
+}
+
+/// C11's clause for the helpers of an update (finding C11-inc-resources-shadow): every entry of the effective resources the page
+/// had in the denoted document before the call -- own or INHERITED -- is there after it, with its value; only the name the call
+/// itself sets (`set_key` = "cat/name") may get a new value.  None = kept.
+fn kept_resources(inc_before_faithful: bool, before: &View, after: &View, page: ObjectId, set_key: Option<&str>, what: &str) -> Option<String> {
+    let (tb, _) = effective_resources(before, page);
+    if tb.starts_with('(') || !inc_before_faithful {
+        return None; // the page had no (well-formed) resources before, or the copy quirk applies
+    }
+    let (ta, _) = effective_resources(after, page);
+    let rows_after: BTreeSet<&str> = ta.split(';').collect();
+    let keys_after: BTreeSet<&str> = ta.split(';').map(|r| r.split('=').next().unwrap_or(r)).collect();
+    for row in tb.split(';').filter(|r| !r.is_empty()) {
+        if rows_after.contains(row) {
+            continue;
+        }
+        let key = row.split('=').next().unwrap_or(row);
+        if Some(key) == set_key && keys_after.contains(key) {
+            continue;
+        }
+        return Some(format!(
+            "{} took away the resource {} that page {} {} could use before (own or inherited)",
+            what,
+            pretty_key(key),
+            page.0,
+            page.1
+        ));
+    }
+    None
+}
+
 struct Pending {
     page: ObjectId,
     cat: &'static [u8],
@@ -431,6 +492,14 @@ fn run_steps(mut bytes: Vec<u8>, steps: &Sx, out: &mut Vec<Sx>) -> String {
                 _ => None,
             };
             let before = if helper.is_some() || !pending.is_empty() { Some(view_of(&inc)) } else { None };
+            // the copies the helper will make (the page, the object its own Resources entry names) keep what these ids name
+            let faithful = match (&helper, &before, op.args().first().and_then(oid_of_sx)) {
+                (Some(_), Some(v), Some(page)) => {
+                    let own = vnode(v, page, &mut vec![]).and_then(|d| d.get(b"Resources").and_then(Object::as_reference).ok());
+                    clone_faithful(&inc, v, page) && own.map_or(true, |rid| clone_faithful(&inc, v, rid))
+                }
+                _ => false,
+            };
             let r = match apply_op(&mut inc, op) {
                 Some(r) => r,
                 None => {
@@ -446,6 +515,13 @@ fn run_steps(mut bytes: Vec<u8>, steps: &Sx, out: &mut Vec<Sx>) -> String {
                     let what = format!("step {} edit {}: {}", k, j, op.print());
                     let (scope, dom) = helper_scope(&inc, &before, page, cat);
                     if let Some(why) = helper_frame(&before, &after, &scope, page, &what) {
+                        fail(&mut verdict, why);
+                    }
+                    let set_key = match (cat, op.args().get(1).and_then(|n| n.as_bytes())) {
+                        (Some(c), Some(n)) => Some(format!("{}/{}", Sx::bytes(c).print(), Sx::bytes(&n).print())),
+                        _ => None,
+                    };
+                    if let Some(why) = kept_resources(faithful, &before, &after, page, set_key.as_deref(), &what) {
                         fail(&mut verdict, why);
                     }
                     if let (Some(cat), true, true) = (cat, dom, r.is_id("ok")) {
